@@ -193,7 +193,11 @@ class Mods:
             # (the endpoint turns it into an already-failed Deferred: try_next_ep runs inside connect())
             sync_fail = None
 
+            on_attempt = None
+
             def _maybe_raise(self):
+                if self.on_attempt is not None:
+                    self.on_attempt()         # the attempt is observed the moment it is made
                 k = len(self.connectors) - 1
                 if self.sync_fail and k in self.sync_fail:
                     raise self.sync_fail[k]
@@ -467,6 +471,7 @@ class Run:
     def start(self):
         M = self.M
         self.reactor = M.ObservedClock()
+        self.reactor.on_attempt = self.note_attempts
         k = 0
         self.reactor.sync_fail = {}
         for st in self.sc['steps']:
